@@ -6,4 +6,5 @@ rm -rf $ws; mkdir -p $ws
 git -C /repo worktree prune
 git -C /repo worktree add -q -B ws-$1 $ws/repo HEAD
 rsync -a --exclude .git --exclude work --exclude replays --exclude 'harness/target' --exclude 'lean/.lake' /verif/ $ws/verif/
+git -C /verif rev-parse --short HEAD > $ws/verif/.base
 echo $ws
